@@ -19,7 +19,7 @@ LENIENT_ON = {'ELLIPSIS': True, 'NORMALIZE_WHITESPACE': True, 'IGNORE_WHITESPACE
 ALPH = {
     'W': ['a', 'b', ' ', '\n', '\t', '.'],
     'Q': ['a', 'u', 'b', 'r', "'", '"', ' '],
-    'M': ['a', '\n', ' ', '\x1b[31m', '\x1b[0m', '<BLANKLINE>'],
+    'M': ['a', '\n', ' ', '\x1b[31m', '\x1b[0m', '<BLANKLINE>', '\x9b1m'],
     # the wildcard as one token, so that wants with two markers and literal pieces between them
     # ('...a...a', 'a...a...') are inside a 4-token bound under every flag setting
     'E': ['a', ' ', '\n', '...'],
@@ -181,6 +181,72 @@ class RelSpec(Spec):
                 'case': {'alphabet': name, 'got': g, 'wants': len(wants)}}
 
 
+class StateReuseSpec(Spec):
+    """one RuntimeState object carried through a *history* of flag assignments (rs[flag] = value) with a check after
+    every assignment: the verdict must be the one a fresh state with the same flags gives (no stale view of the flags)"""
+    prop = 'C05'
+    name = 'state-reuse'
+    batch = 4
+    title = 'flag assignments on one re-used RuntimeState object'
+    PAIRS = [('abc', 'a...c'), ('a  b', 'a b'), ('a b', 'ab'), ("'a'", 'a'), ('\na', '<BLANKLINE>\na'), ('a\t\nb', 'a\nb'),
+             ('ab', 'a...b...b'), ("u'a'", "'a'")]
+
+    def __init__(self, depth):
+        self.max_len = depth
+        self.max_cost = 99
+        self.rule = ('all sequences of <= %d assignments (flag, value) over the 5 flags x {True, False} on one RuntimeState '
+                     'object (initial state: defaults); after every assignment %d flag-sensitive pairs are checked and '
+                     'compared with a fresh RuntimeState holding the same flags, and the flag is read back; non-trivial = all'
+                     % (depth, len(self.PAIRS)))
+
+    def init(self):
+        return ()
+
+    def enabled(self, S, hist):
+        return [(f, v) for f in FLAGS for v in (True, False)]
+
+    def step(self, S, ev):
+        d = dict(S)
+        d[ev[0]] = ev[1]
+        return tuple(sorted(d.items()))
+
+    def final(self, S, hist):
+        return len(hist) == self.max_len
+
+    def run_case(self, hist):
+        from xdoctest import checker, directive
+        rs = directive.RuntimeState()
+        cur = {f: rs[f] for f in FLAGS}
+        atoms = []
+        n = 0
+        for step_i, (f, v) in enumerate(hist):
+            # look at the state first (a lazily built view would be created here), then assign
+            for g, w in self.PAIRS[:2]:
+                checker.check_output(g, w, rs)
+            rs[f] = v
+            cur[f] = v
+            if bool(rs[f]) != v:
+                atoms.append({'sig': 'reuse:flag-reads-back-stale', 'msg': 'after rs[%r] = %r (step %d of %r) rs[%r] is %r' % (f, v, step_i, hist, f, rs[f])})
+                break
+            fresh = directive.RuntimeState()
+            for k, val in cur.items():
+                fresh[k] = val
+            for g, w in self.PAIRS:
+                n += 1
+                a = bool(checker.check_output(g, w, rs))
+                b = bool(checker.check_output(g, w, fresh))
+                c = matchref.matches3(g, w, cur)
+                if a != b or (c is not None and a != c):
+                    atoms.append({'sig': 'reuse:verdict-differs-from-fresh-state',
+                                  'msg': 'history %r, step %d: check_output(%r, %r) on the re-used state = %s, on a fresh state with flags %r = %s (relation: %s)' % (
+                                      hist, step_i, g, w, a, cur, b, c)})
+                    break
+            if atoms:
+                break
+        return {'atoms': atoms, 'n': n, 'outcome': 'ok' if not atoms else 'bad', 'case': {'assignments': [list(h) for h in hist]},
+                'nontrivial': 1}
+
+
 # --------------------------------------------------------------------------------------------------
 class E2ERelSpec(Spec):
     prop = 'C05'
@@ -230,6 +296,6 @@ class E2ERelSpec(Spec):
 def specs(tier):
     if tier == 'thorough':
         return [RelSpec('W<=4x4', 'W', 4, 4), RelSpec('Q<=4x4', 'Q', 4, 4), RelSpec('M<=4x4', 'M', 4, 4),
-                RelSpec('E<=5x6', 'E', 5, 6), E2ERelSpec()]
+                RelSpec('E<=5x6', 'E', 5, 6), StateReuseSpec(4), E2ERelSpec()]
     return [RelSpec('W<=4x3', 'W', 4, 3), RelSpec('W<=3x4', 'W', 3, 4, only_new=(3, 3)),
-            RelSpec('Q<=3x3', 'Q', 3, 3), RelSpec('Q<=2x4', 'Q', 2, 4, only_new=(2, 3)), RelSpec('M<=3x3', 'M', 3, 3), RelSpec('E<=3x5', 'E', 3, 5), E2ERelSpec()]
+            RelSpec('Q<=3x3', 'Q', 3, 3), RelSpec('Q<=2x4', 'Q', 2, 4, only_new=(2, 3)), RelSpec('M<=3x3', 'M', 3, 3), RelSpec('E<=3x5', 'E', 3, 5), StateReuseSpec(3), E2ERelSpec()]
